@@ -1,6 +1,6 @@
 (** Pins for C14: the statements written out, so that no theorem is weakened quietly. *)
 From TucModel Require Import Base.Bytes Base.ListX Model.Bounds Model.Scan Model.Opt Model.CutBytes
-     Model.CutStr Model.FastLane Model.Main Model.IO Proofs.C10 Proofs.C14 Properties.C14.
+     Model.CutStr Model.FastLane Model.Stream Model.Main Model.IO Proofs.C04 Proofs.C10 Proofs.C10Stream Proofs.C14 Proofs.C14More Properties.C14.
 
 
 Check C14_delivered_is_a_prefix :
@@ -43,3 +43,33 @@ Print Assumptions C14_failing_record_keeps_earlier_records_fast.
 Check C14_failing_cut_is_reported :
   forall (pre : bytes) (read_ok : bool) (wk : option nat), fst (envelope (Fail pre) read_ok wk) = 1.
 Print Assumptions C14_failing_cut_is_reported.
+
+Check C14_failure_delivers_exactly_the_earlier_records :
+  forall (o : opt) (input pre : bytes),
+    read_and_cut_str o input = Some (Fail pre) <->
+    exists rs1 r rs2 outs, records (o_eol o) input = rs1 ++ r :: rs2
+                           /\ Forall2 (cut_ok (cut_str o)) rs1 outs /\ cut_str o r = Some RErr
+                           /\ pre = concat outs.
+Print Assumptions C14_failure_delivers_exactly_the_earlier_records.
+
+Check C14_success_delivers_every_record :
+  forall (o : opt) (input out : bytes),
+    read_and_cut_str o input = Some (Done out) <->
+    exists outs, Forall2 (cut_ok (cut_str o)) (records (o_eol o) input) outs /\ out = concat outs.
+Print Assumptions C14_success_delivers_every_record.
+
+Check C14_fixed_memory_failure_delivers_exactly_the_earlier_records :
+  forall (so : sopt) (input pre : bytes),
+    no_adjacent_fillers (s_items so) ->
+    (run_stream_whole so input = Fail pre <->
+     exists rs1 r rs2 outs, records (s_eol so) input = rs1 ++ r :: rs2
+                            /\ Forall2 (cut_ok (stream_cut so)) rs1 outs /\ stream_cut so r = Some RErr
+                            /\ pre = concat outs).
+Print Assumptions C14_fixed_memory_failure_delivers_exactly_the_earlier_records.
+
+Check C14_fixed_memory_success_delivers_every_record :
+  forall (so : sopt) (input out : bytes),
+    no_adjacent_fillers (s_items so) ->
+    (run_stream_whole so input = Done out <->
+     exists outs, Forall2 (cut_ok (stream_cut so)) (records (s_eol so) input) outs /\ out = concat outs).
+Print Assumptions C14_fixed_memory_success_delivers_every_record.
